@@ -91,6 +91,9 @@ func (e *Ev) mapCard(m Term, mt *types.Map) string {
 	e.g().mapSorts[base] = [2]string{ks, vs}
 	_, _, card := e.mapHeaps(base, ks, vs)
 	c := app("select", card, m.S)
+	// a map never has a negative number of entries; the nil map has none
+	e.st.assume(app(">=", c, "0"))
+	e.st.assume(smtEq(app("select", card, "0"), "0"))
 	return c
 }
 
